@@ -460,7 +460,7 @@ impl ImplWhereClause<'_, '_> {
                 );
 
                 if self.contains_async.0 {
-                    push_tokens!(stream, self.plus_send(), self.plus_sync());
+                    push_tokens!(stream, self.plus_sync());
                 }
                 push_tokens!(stream, self.plus_static());
             }
@@ -475,7 +475,7 @@ impl ImplWhereClause<'_, '_> {
                 );
 
                 if self.contains_async.0 {
-                    push_tokens!(stream, self.plus_send(), self.plus_sync());
+                    push_tokens!(stream, self.plus_sync());
                 }
                 push_tokens!(stream, self.plus_static());
             }
@@ -531,10 +531,6 @@ impl ImplWhereClause<'_, '_> {
             syn::token::Plus(self.span),
             syn::Lifetime::new("'static", self.span),
         )
-    }
-
-    fn plus_send(&self) -> TokenPair<impl ToTokens, impl ToTokens> {
-        TokenPair(syn::token::Plus(self.span), CoreMarker("Send", self.span))
     }
 
     fn plus_sync(&self) -> TokenPair<impl ToTokens, impl ToTokens> {
